@@ -116,7 +116,8 @@ def run(R, only=None):
     for b, o in zip(base, outs):
         n0 = len(b["setup"])
         if not isinstance(o, list) or len(o) < n0 + 2 or "ok" not in o[n0 + 1]:
-            tail = json.dumps(o[-1] if isinstance(o, list) and o else o)
+            # (what the statement itself answered, not the read-back that follows it)
+            tail = json.dumps(o[n0 + 1] if isinstance(o, list) and len(o) > n0 + 1 else (o[-1] if isinstance(o, list) and o else o))
             R.property_fails("KF_C17_subquery_not_executable" if ("not found from input" in tail or "Apply is not supported" in tail) else None,
                              f"C15 the undisturbed run of `{b['q']}` failed: {tail[:200]}",
                              {"kind": "sql-script", "case": {"engine": b["engine"], **b["opts"], "steps": b["setup"] + [{"sql": b["q"]}]}})
